@@ -1,2 +1,118 @@
-(* Property C06 (placeholder while the proofs are being built). *)
-From FpyV Require Import Lang.Literal.
+(* Property C06 — a numeric literal denotes exactly the number written.
+   Only statements, each closed by `exact`, each followed by Print Assumptions.
+
+   coq/Lang/Literal.v, part A: the denotation of a spelling by one Horner
+   pass over its characters (dec_denote, hex_denote, pyfloat_denote,
+   pyint_denote, rational_denote, digits_denote; lit_denote for a literal
+   expression with unary minus / plus).  Part B: the model of
+   utils/fractions.py, fpyast.as_rational/as_real and the parser.
+   `lval_equiv` / `olval_equiv`: same value (rationals compared by ==, the
+   negative zero only with itself, an exception only with "no denotation").
+
+   `lfixes`: the code as it is (`lit_as_coded`) and with the three proposed
+   patches fixes/C06-*.diff (`lit_all_fixed`).  All statements quantify over
+   every string / every integer: no bound on digit counts or exponents. *)
+From Coq Require Import ZArith List Bool Ascii String QArith.
+From FpyV Require Import Lang.Literal Lang.LiteralProofs.
+Open Scope Z_scope.
+
+(* decnum_to_fraction + Decnum.as_real = the Horner denotation, for every string
+   (relaxed = false: the pattern in /repo; relaxed = true: the patched pattern,
+   which also accepts "12.") *)
+Theorem C06_decnum_spec : forall relaxed s,
+  olval_equiv (decnum_value relaxed s) (dec_denote (negb relaxed) s).
+Proof. exact decnum_spec. Qed.
+Print Assumptions C06_decnum_spec.
+
+(* hexnum_to_fraction + Hexnum.as_real: the code never returns a wrong number
+   and never accepts a string outside the grammar; the only discrepancy is an
+   exception on a valid string, possible only without the patch *)
+Theorem C06_hexnum_spec : forall fx s,
+  match hexnum_value fx s, hex_denote s with
+  | Some a, Some b => lval_equiv a b
+  | None, None => True
+  | None, Some _ => fx_hexint fx = false
+  | Some _, None => False
+  end.
+Proof. exact hexnum_spec. Qed.
+Print Assumptions C06_hexnum_spec.
+
+Theorem C06_hexnum_spec_fixed : forall fx s, fx_hexint fx = true ->
+  olval_equiv (hexnum_value fx s) (hex_denote s).
+Proof. exact hexnum_spec_fixed. Qed.
+Print Assumptions C06_hexnum_spec_fixed.
+
+Theorem C06_hexnum_spec_partial : forall s a, hexnum_value lit_as_coded s = Some a ->
+  exists b, hex_denote s = Some b /\ lval_equiv a b.
+Proof. exact hexnum_spec_partial. Qed.
+Print Assumptions C06_hexnum_spec_partial.
+
+Theorem C06_hexnum_refuted :
+  exists s q, hexnum_value lit_as_coded s = None /\ hex_denote s = Some (LQ q) /\ (q == 1)%Q.
+Proof. exact hexnum_refuted. Qed.
+Print Assumptions C06_hexnum_refuted.
+
+(* rational(p, q) and digits(m, e, b), every integer (negative q, negative b,
+   q = 0 and 0 ** negative raise) *)
+Theorem C06_rational_spec : forall p q, olval_equiv (rational_value p q) (rational_denote p q).
+Proof. exact rational_spec. Qed.
+Print Assumptions C06_rational_spec.
+
+Theorem C06_digits_spec : forall m e b, olval_equiv (digits_value m e b) (digits_denote m e b).
+Proof. exact digits_spec. Qed.
+Print Assumptions C06_digits_spec.
+
+(* the core of _sci_to_fraction: integer part I, fraction part F of k digits,
+   exponent E combine to the Horner value (I * base^k + F) * eb^E / base^k *)
+Theorem C06_sci_combine : forall I F base k eb e, 0 < base -> 0 < eb -> 0 <= k ->
+  ((inject_Z I + inject_Z F * qpow base (- k)) * qpow eb e == mkq (I * base ^ k + F) base k eb e)%Q.
+Proof. exact combine_eq. Qed.
+Print Assumptions C06_sci_combine.
+
+(* a literal expression under the real context (literal_value) evaluates to
+   what its source text denotes (lit_denote): every literal, with the side
+   conditions lit_ok: an integer token has the value Python's integer parser
+   returned, a float token has no sign, and — only for the unrepaired code — the
+   float path is not used, a hex mantissa has integer digits, unary minus is not
+   applied to a negative zero *)
+Theorem C06_literal_value_spec : forall fx l, lit_ok fx l ->
+  olval_equiv (literal_value fx l) (lit_denote l).
+Proof. exact literal_value_spec. Qed.
+Print Assumptions C06_literal_value_spec.
+
+Theorem C06_literal_value_fixed : forall l, lit_ok lit_all_fixed l ->
+  olval_equiv (literal_value lit_all_fixed l) (lit_denote l).
+Proof. exact literal_value_fixed. Qed.
+Print Assumptions C06_literal_value_fixed.
+
+(* the parser as it is takes the double Python made of a float token *)
+Theorem C06_parser_float_refuted :
+  exists sp v rp q, pyfloat_denote sp = Some (LQ q) /\ binary64_nearest_int v q = true /\
+    literal_value lit_as_coded (LFloat sp (PYF false v 1 rp)) = Some (LQ (inject_Z v)) /\ ~ (inject_Z v == q)%Q.
+Proof. exact parser_float_refuted. Qed.
+Print Assumptions C06_parser_float_refuted.
+
+(* ... and negates a negative zero to a negative zero *)
+Theorem C06_negneg_refuted :
+  exists l, lit_ok lit_all_fixed l /\ literal_value lit_as_coded l = Some LNegZero /\ lit_denote l = Some (LQ 0).
+Proof. exact negneg_refuted. Qed.
+Print Assumptions C06_negneg_refuted.
+
+(* negative-zero fold: -0 and -0.0 are the negative zero *)
+Theorem C06_neg_zero_fold : forall fx,
+  literal_value fx (LNeg (LInt "0" 0)) = Some LNegZero /\
+  lit_denote (LNeg (LInt "0" 0)) = Some LNegZero /\
+  lit_denote (LNeg (LFloat "0.0" (PYF false 0 1 "0.0"))) = Some LNegZero /\
+  literal_value fx (LNeg (LFloat "0.0" (PYF false 0 1 "0.0"))) = Some LNegZero.
+Proof. exact neg_zero_fold. Qed.
+Print Assumptions C06_neg_zero_fold.
+
+(* the hypotheses are satisfiable *)
+Theorem C06_hypotheses_satisfiable :
+  lit_ok lit_all_fixed (LNeg (LFloat "1_0.5E-3" (PYF false 0 1 ""))) /\
+  lit_ok lit_all_fixed (LPos (LInt "0x_fF" 255)) /\
+  lit_ok lit_all_fixed (LNeg (LNeg (LHex "0x.8p1"))) /\
+  lit_ok lit_as_coded (LNeg (LHex "-0x1.8p3")) /\
+  (exists q, lit_denote (LFloat "1_0.5E-3" (PYF false 0 1 "")) = Some (LQ q) /\ (q == 21 # 2000)%Q).
+Proof. exact lit_ok_inhabited. Qed.
+Print Assumptions C06_hypotheses_satisfiable.
